@@ -18,21 +18,24 @@ func (ln *leafNode) getNextHashAndKey(key []byte) (ok bool, want []byte, next []
   ensures  no-next: want == nil && next == nil
   assigns  nothing
 
-// extension: never final; the step may continue to the child hash only if the extension's own key segment is a prefix of
-// the remaining key, and then the rest of the key is what follows the segment
+// extension: never final; the step continues to the child hash exactly when the extension's own key segment is a prefix of
+// the (non-empty) remaining key, and then the rest of the key is what follows the segment; otherwise the walk stops
 func (en *extensionNode) getNextHashAndKey(key []byte) (ok bool, want []byte, next []byte)
   ensures  never-final: !ok
   ensures  empty-key-stops: len(key) == 0 ==> want == nil && next == nil
   ensures  sound: want != nil ==> isPrefix(en.Key, key)
-  ensures  child: len(key) > 0 ==> want == en.EncodedChild
-  ensures  rest: len(key) > 0 ==> len(en.Key) <= len(key) && next == key[len(en.Key):]
+  ensures  mismatch-stops: !isPrefix(en.Key, key) ==> want == nil && next == nil
+  ensures  child: len(key) > 0 && isPrefix(en.Key, key) ==> want == en.EncodedChild
+  ensures  rest: len(key) > 0 && isPrefix(en.Key, key) ==> next == key[len(en.Key):]
   assigns  nothing
 
-// branch: never final; continues with the child hash stored at the position given by the first nibble of the key
+// branch: never final; continues with the child hash stored at the position given by the first nibble of the key; a position
+// beyond the node's child slots (possible only for a node decoded from foreign bytes) stops the walk
 func (bn *branchNode) getNextHashAndKey(key []byte) (ok bool, want []byte, next []byte)
   ensures  never-final: !ok
   ensures  empty-key-stops: len(key) == 0 ==> want == nil && next == nil
-  ensures  child: len(key) > 0 ==> key[0] < len(bn.EncodedChildren) && want == bn.EncodedChildren[key[0]] && next == key[1:]
+  ensures  child: len(key) > 0 && key[0] < len(bn.EncodedChildren) ==> want == bn.EncodedChildren[key[0]] && next == key[1:]
+  ensures  out-of-range-stops: len(key) > 0 && key[0] >= len(bn.EncodedChildren) ==> want == nil && next == nil
   assigns  nothing
 @*/
 
@@ -119,8 +122,10 @@ func (n trie.node) getNextHashAndKey(key []byte) (ok bool, want []byte, next []b
   ensures  only-leaf-accepts: ok ==> typeIs(n, ptr_leafNode)
   ensures  def-ext-matches: typeIs(n, ptr_extensionNode) ==> (extMatches(n, key) <==> isPrefix(asExt(n).Key, key))
   ensures  ext-sound: typeIs(n, ptr_extensionNode) && want != nil ==> extMatches(n, key)
-  ensures  ext-step: typeIs(n, ptr_extensionNode) && len(key) > 0 ==> want == asExt(n).EncodedChild && len(asExt(n).Key) <= len(key) && next == key[len(asExt(n).Key):]
-  ensures  branch-step: typeIs(n, ptr_branchNode) && len(key) > 0 ==> key[0] < len(asBranch(n).EncodedChildren) && want == asBranch(n).EncodedChildren[key[0]] && next == key[1:]
+  ensures  ext-mismatch-stops: typeIs(n, ptr_extensionNode) && !extMatches(n, key) ==> want == nil && next == nil
+  ensures  ext-step: typeIs(n, ptr_extensionNode) && len(key) > 0 && extMatches(n, key) ==> want == asExt(n).EncodedChild && next == key[len(asExt(n).Key):]
+  ensures  branch-step: typeIs(n, ptr_branchNode) && len(key) > 0 && key[0] < len(asBranch(n).EncodedChildren) ==> want == asBranch(n).EncodedChildren[key[0]] && next == key[1:]
+  ensures  branch-out-of-range-stops: typeIs(n, ptr_branchNode) && len(key) > 0 && key[0] >= len(asBranch(n).EncodedChildren) ==> want == nil && next == nil
   ensures  empty-key-stops: !typeIs(n, ptr_leafNode) && len(key) == 0 ==> want == nil && next == nil
   ensures  same-hex-key: len(want) > 0 ==> next[0-off(next):] == key[0-off(key):]
   ensures  def-provable-leaf: typeIs(n, ptr_leafNode) && sameBytes(key, asLeaf(n).Key) ==> provable(nodeHash(n), key)
@@ -141,7 +146,8 @@ lemma ext-step-refines
   call ok, want, next = en.getNextHashAndKey(key)
   concl only-leaf-accepts: !ok
   concl ext-sound: want != nil ==> isPrefix(asExt(n).Key, key)
-  concl ext-step: len(key) > 0 ==> want == asExt(n).EncodedChild && len(asExt(n).Key) <= len(key) && next == key[len(asExt(n).Key):]
+  concl ext-mismatch-stops: !isPrefix(asExt(n).Key, key) ==> want == nil && next == nil
+  concl ext-step: len(key) > 0 && isPrefix(asExt(n).Key, key) ==> want == asExt(n).EncodedChild && next == key[len(asExt(n).Key):]
   concl empty-key-stops: len(key) == 0 ==> want == nil && next == nil
   concl same-hex-key: len(want) > 0 ==> next[0-off(next):] == key[0-off(key):]
 
@@ -150,7 +156,8 @@ lemma branch-step-refines
   hyp  n == iface(bn) && bn != nil
   call ok, want, next = bn.getNextHashAndKey(key)
   concl only-leaf-accepts: !ok
-  concl branch-step: len(key) > 0 ==> key[0] < len(asBranch(n).EncodedChildren) && want == asBranch(n).EncodedChildren[key[0]] && next == key[1:]
+  concl branch-step: len(key) > 0 && key[0] < len(asBranch(n).EncodedChildren) ==> want == asBranch(n).EncodedChildren[key[0]] && next == key[1:]
+  concl branch-out-of-range-stops: len(key) > 0 && key[0] >= len(asBranch(n).EncodedChildren) ==> want == nil && next == nil
   concl empty-key-stops: len(key) == 0 ==> want == nil && next == nil
   concl same-hex-key: len(want) > 0 ==> next[0-off(next):] == key[0-off(key):]
 
